@@ -196,10 +196,15 @@ def calls_case(seed, nsteps=8):
     _calls_snapshot()
     Probe, PParams, PState, POut = None, None, None, None
     recs = []
-    for e, api in enumerate(["run", "step_override"]):
+    gs_prev = None
+    for e, api in enumerate(["run", "step_override", "run_carried_over"]):
         overridden = []
         if api == "run":
             rec, obs, gs = run.episode(nsteps, eps=e, api="run")
+            gs_prev = gs
+        elif api == "run_carried_over":
+            # a new episode started from the graph state the previous episode returned (sequence numbers != 0)
+            rec, obs, gs = run.episode(nsteps, eps=e, api="run", gs0=gs_prev)
         else:
             def ov(k, ss):
                 if k % 2 == 1:
@@ -258,7 +263,20 @@ def calls_case(seed, nsteps=8):
         # (d) step() straight after init (step == 0): the supervisor must not run
         s4, _ = g.step(gs)
         calls_first = _calls_snapshot()
-        out["compiled"].append(dict(mode=mode, timings=tim, nrun=nrun, calls_run=calls_run, calls_rollout=calls_roll, calls_step=calls_step, overridden=ov, calls_first=calls_first, sup=spec["supervisor"]))
+        # (e) an episode that starts at partition k0 > 0
+        k0 = min(2, max(0, g.max_steps - 2))
+        n_e = max(1, min(3, g.max_steps - k0))
+        s5 = g.init(rng=jax.random.PRNGKey(spec["seed"]), starting_eps=0, starting_step=k0)
+        for _ in range(n_e):
+            s5 = g.run(s5)
+        calls_late = _calls_snapshot()
+        # (f) a used graph state rewound to step 0 and run again
+        s6 = s.replace_step(g.timings, 0)
+        for _ in range(nrun):
+            s6 = g.run(s6)
+        calls_reused = _calls_snapshot()
+        out["compiled"].append(dict(mode=mode, timings=tim, nrun=nrun, calls_run=calls_run, calls_rollout=calls_roll, calls_step=calls_step, overridden=ov, calls_first=calls_first,
+                                    k0=k0, n_late=n_e, calls_late=calls_late, calls_reused=calls_reused, sup=spec["supervisor"]))
     return out
 
 
@@ -369,3 +387,131 @@ def wallclock_ts_case(seed):
     rec = rt.safe_get_record(g)
     d = rt.episode_record_to_dict(rec)
     return dict(record={k: {f: v[f] for f in ("seq", "ts_start", "ts_end", "delay")} for k, v in d.items()})
+
+
+def _leaves(gs):
+    """flatten a GraphState (without aux) to comparable python lists"""
+    import jax
+    import numpy as onp
+
+    gs = gs.replace(aux=type(gs.aux)({}))
+    return [onp.asarray(x).tolist() for x in jax.tree_util.tree_leaves(gs)]
+
+
+def _same(a, b, tol=0.0):
+    import numpy as onp
+
+    if len(a) != len(b):
+        return f"different number of leaves {len(a)} vs {len(b)}"
+    for i, (x, y) in enumerate(zip(a, b)):
+        xa, ya = onp.asarray(x), onp.asarray(y)
+        if xa.shape != ya.shape:
+            return f"leaf {i}: shape {xa.shape} vs {ya.shape}"
+        if xa.dtype.kind == "f" or ya.dtype.kind == "f":
+            if not onp.allclose(xa, ya, rtol=tol, atol=tol, equal_nan=True):
+                return f"leaf {i}: {xa.reshape(-1)[:4]} vs {ya.reshape(-1)[:4]}"
+        elif not onp.array_equal(xa, ya):
+            return f"leaf {i}: {xa.reshape(-1)[:6]} vs {ya.reshape(-1)[:6]}"
+    return None
+
+
+def api_case(seed, nsteps=8):
+    """C09: compositions of the compiled driving API from the same graph state."""
+    import jax
+    import jax.numpy as jnp
+    import numpy as onp
+    from rex import base
+
+    rng = random.Random(seed)
+    spec = rt.rand_spec(rng)
+    exp = _async_experiment(rng, spec, [nsteps, nsteps - rng.randint(1, 3), nsteps - 1])
+    if exp is None:
+        return dict(skipped="empty record", spec=spec)
+    run, recs, dicts = exp
+    graphs_raw = base.ExperimentRecord(episodes=recs).to_graph()
+    mode = rng.choice(["MCS", "GENERATIONAL", "TOPOLOGICAL"])
+    g = rt.compile_graph(run.nodes, run.sup, graphs_raw, mode=mode, prune=rng.random() < 0.7)
+    sup = run.sup.name
+    out = dict(spec=spec, feats=sorted(rt.spec_features(spec)), mode=mode, max_eps=int(g.max_eps), max_steps=int(g.max_steps), diffs=[], checks=0)
+    key = jax.random.PRNGKey(spec["seed"])
+
+    def chk(label, a, b, tol=0.0):
+        out["checks"] += 1
+        d = _same(_leaves(a), _leaves(b), tol)
+        if d is not None:
+            out["diffs"].append(f"{label}: {d}")
+
+    jr = jax.jit(g.run)
+    jreset = jax.jit(g.reset)
+    jstep = jax.jit(lambda x: g.step(x))
+    jstep_ov = jax.jit(lambda x, ss, o: g.step(x, ss, o))
+    jU = jax.jit(g.run_until_supervisor)
+    for trial in range(2):
+        e = rng.randrange(g.max_eps)
+        k0 = rng.choice([0, 0, 1, 2])
+        n = rng.randint(1, max(1, g.max_steps - k0))
+        tag = f"eps={e} start={k0} n={n}"
+        gs = g.init(rng=key, starting_eps=e, starting_step=k0)
+        # A: run^n (jit-compiled run applied n times)
+        a = gs
+        for _ in range(n):
+            a = jr(a)
+        # eager (un-jitted) run once vs jitted run once
+        chk(f"[{tag}] eager run vs jit(run)", g.run(gs), jr(gs))
+        # B: reset + step^n  ==  U(run^n)
+        b, ss = jreset(gs)
+        for _ in range(n):
+            b, ss = jstep(b)
+        chk(f"[{tag}] reset+step^n vs run_until_supervisor(run^n)", b, jU(a))
+        # C/D: rollout
+        c = g.rollout(gs, max_steps=n, carry_only=True)
+        chk(f"[{tag}] rollout(carry_only) vs run^n", c, a)
+        traj = g.rollout(gs, max_steps=n, carry_only=False)
+        last = jax.tree_util.tree_map(lambda x: x[-1], traj)
+        chk(f"[{tag}] last element of rollout trajectory vs run^n", last, a)
+        if n >= 2:
+            mid = jax.tree_util.tree_map(lambda x: x[0], traj)
+            chk(f"[{tag}] first element of rollout trajectory vs run^1", mid, jr(gs))
+        chk(f"[{tag}] jit(rollout) vs run^n", jax.jit(lambda x: g.rollout(x, max_steps=n, carry_only=True))(gs), a)
+        # G: override with the supervisor's own step result == default
+        b1, ss1 = jreset(gs)
+        own_ss, own_out = run.sup.step(ss1)
+        o1, _ = jstep_ov(b1, own_ss, own_out)
+        d1, _ = jstep(b1)
+        chk(f"[{tag}] step(override = supervisor's own result) vs step()", o1, d1)
+    # F: vmap over starting episodes
+    es = [rng.randrange(g.max_eps) for _ in range(3)]
+    n = max(1, g.max_steps // 2)
+    singles = [g.rollout(g.init(rng=key, starting_eps=e), max_steps=n, carry_only=True) for e in es]
+    batched = jax.vmap(lambda e: g.rollout(g.init(rng=key, starting_eps=e), max_steps=n, carry_only=True))(jnp.array(es))
+    for i, e in enumerate(es):
+        chk(f"[vmap eps={es} n={n}] batch element {i} vs single rollout", jax.tree_util.tree_map(lambda x: x[i], batched), singles[i], tol=1e-6)
+    # H: clipping of out-of-range episode / step indices
+    for e_req in (-3, -1, g.max_eps, g.max_eps + 4):
+        e_clip = min(max(e_req, 0), g.max_eps - 1)
+        x = g.init(rng=key, starting_eps=e_req)
+        y = g.init(rng=key, starting_eps=e_clip)
+        if int(x.eps) != e_clip:
+            out["diffs"].append(f"[clip] init(starting_eps={e_req}) gives eps={int(x.eps)}, expected clipped {e_clip}")
+        chk(f"[clip] init(starting_eps={e_req}) vs init(starting_eps={e_clip})", x, y)
+        chk(f"[clip] run after init(starting_eps={e_req})", jr(x), jr(y))
+        chk(f"[clip] rollout after gs.replace(eps={e_req})", g.rollout(y.replace(eps=jnp.int32(e_req)), max_steps=2), g.rollout(y, max_steps=2))
+    for k_req in (-2, g.max_steps + 1, g.max_steps + 7):
+        k_clip = min(max(k_req, 0), g.max_steps)
+        x = g.init(rng=key, starting_step=k_req)
+        if int(x.step) != k_clip:
+            out["diffs"].append(f"[clip] init(starting_step={k_req}) gives step={int(x.step)}, expected clipped {k_clip}")
+    # I: params given to init are what the steps see
+    P = type(run.gs0.params[sup])
+    other = [n_ for n_ in run.nodes if n_ != sup][0]
+    pv = P(w=jnp.array(11, dtype=jnp.int32))
+    x = g.init(rng=key, params={other: pv})
+    y = g.init(rng=key)
+    y = y.replace(params=y.params.copy({other: pv}))
+    if int(x.params[other].w) != 11:
+        out["diffs"].append("[params] init(params=...) did not install the given params")
+    chk("[params] rollout with init(params=...) vs params replaced by hand", g.rollout(x, max_steps=3), g.rollout(y, max_steps=3))
+    z = g.rollout(g.init(rng=key), max_steps=3)
+    if _same(_leaves(z), _leaves(g.rollout(x, max_steps=3))) is None:
+        out["note_params_irrelevant"] = True
+    return out
